@@ -393,7 +393,7 @@ def run(ctx):
                    (('clean', 'error'), ('clean', 'error'), ('none',)),
                    (('none',), ('none', 'all'), ('none',))] if quick else
                   [(POLICIES, POLICIES, ('none',)), (('all', 'none'), ('all', 'none'), ('secs', 'ms', 'at'))])
-        Kc = 1 if quick else 2
+        Kc = 1 if quick else 3
         for gi, (ps, os_, eas) in enumerate(groups):
             submit(f'cover{gi}', run_cfg_text, tmp, f'cover{gi}', life_cfg(defects=asis, K=Kc, props=ps, obeys=os_, eas=eas,
                                                                          emit=True, invariants=['TypeOK']), 'Lifecycle',
@@ -435,14 +435,16 @@ def run(ctx):
         rep.add_tlc('ExitProp_cases_uniform', r, f'{len(uni)} cases: 16 uniform policy pairs x 2 kinds x 3 filters x 3 topologies')
         if len(uni) != 288:
             raise MachineryError(f'expected 288 uniform ExitProp cases, TLC printed {len(uni)}')
+        nsched = 1 if quick else 4          # seeded random schedules per case, besides the prompt one
         uni_async = pool.map_async(work_exitprop, chunks([(ln, None, None) for ln in uni] +
-                                                         [(ln, None, 1000 * ctx.seed + i) for i, ln in enumerate(uni)], 12))
+                                                         [(ln, None, 1000 * ctx.seed + 7919 * j + i) for j in range(nsched)
+                                                          for i, ln in enumerate(uni)], 12))
         r = result('ExitProp_cases_mixed')
         if r.violated:
             raise MachineryError(f'ExitProp mixed case enumeration failed: {r.violated}')
         mixed = sorted(ln for ln in r.out.splitlines() if ln.startswith('"<<\\"CASE\\"'))
         r['out'] = ''
-        nmix = 400 if quick else 6000
+        nmix = 400 if quick else 20000
         rep.add_tlc('ExitProp_cases_mixed', r, f'{len(mixed)} cases with per-filter policies (intended design); {nmix} sampled for replay')
         r = result('ExitProp_cases_mixed_phase')
         if r.violated:
@@ -525,17 +527,18 @@ def run(ctx):
     rep.extra['branch_counts'] = dict(sorted(life['branches'].items()))
     mm = ep['mixed_missing']
     rep.extra['per_filter_policies_not_all_terminated'] = {
-        'count': len(mm), 'of': ep['runs'] - 576,
+        'count': len(mm), 'of': ep['runs'] - 288 * (2 if quick else 5),
         'what': 'per-filter policy assignments (outside the property\'s quantifier of policy PAIRS) in which a filter that '
                 'should have obeyed an exit message never read it: it was waiting in recv for a source that had ended '
                 'without announcing (or in send for consumers that had); ExitProp.tla deviation oob_read_in_matching_phase',
         'example': mm[0] if mm else None}
     if mm:
-        rep.note(f'{len(mm)} of {ep["runs"] - 576} sampled per-filter policy assignments left a filter running that the policies '
+        rep.note(f'{len(mm)} of {ep["runs"] - 288 * (2 if quick else 5)} sampled per-filter policy assignments left a filter running that the policies '
                  f'tell to terminate (exit message unread in the socket of the other loop phase) - finding outside the quantifier, '
                  f'not a verdict; e.g. {mm[0]["topo"]} {mm[0]["who"]} {mm[0]["kind"]} {mm[0]["policies"]}')
-    rep.extra['exitprop_branch_counts'] = {'cases': ep['runs'], 'uniform': 288, 'uniform_random_schedules': 288,
-                                           'mixed_sampled': ep['runs'] - 576,
+    rep.extra['exitprop_branch_counts'] = {'cases': ep['runs'], 'uniform': 288,
+                                           'uniform_random_schedules': 288 * (1 if quick else 4),
+                                           'mixed_sampled': ep['runs'] - 288 * (2 if quick else 5),
                                            'distinct_uniform_branches': sum(1 for b in ep['branches'] if not b.endswith('mixed'))}
     rep.extra['exit_after_branch_counts'] = dict(sorted(ea['branches'].items()))
     # vacuity: every fault choice / loop event of the specification was executed on the code
@@ -548,7 +551,7 @@ def run(ctx):
         want.add('iter:deadline')
     if want - set(life['branches']):
         raise MachineryError(f'vacuity: lifecycle branches never executed: {sorted(want - set(life["branches"]))}')
-    if sum(1 for b, n in ep['branches'].items() if not b.endswith('mixed') and n == 2) != 288:
+    if sum(1 for b, n in ep['branches'].items() if not b.endswith('mixed') and n == (2 if quick else 5)) != 288:
         raise MachineryError('vacuity: not all 288 uniform exit-propagation cases were executed')
     for s_ in (life['samples'] + ep['samples'] + ea['samples'])[:4]:
         rep.sample(s_)
